@@ -74,7 +74,7 @@ def cases(tier: str, seed: int) -> list[dict]:
                 continue
             dim = 2 if et in gm.ET_2D else 3
             out.append({"kind": ["elastic", "thermal"][(j + r) % 3 == 2], "dim": dim, "et": et, "law": gmat.KINDS[(k + j) % 4], "ps": bool((k + j) % 2) and dim == 2,
-                        "mesh": "curved", "rho": "scalar", "scale": [1e-4, 1.0, 1e3][(j + r) % 3], "layers": 1})
+                        "mesh": "curved", "rho": "scalar", "scale": [1e-6, 1.0, 1e3][(j + r) % 3], "layers": 1})
         # several element groups of the main dimension in one mesh (merged conforming blocks)
         for pair in ["TRI3+QUAD4", "TRI6+QUAD8", "TRI6+QUAD9", "PRISM6+HEXA8"] + (["PRISM15+HEXA20"] if tier == "thorough" else []):
             dim = 2 if pair.startswith("TRI") else 3
